@@ -44,7 +44,7 @@ type event struct {
 
 func (e event) String() string {
 	switch e.kind {
-	case "connect", "disconnect":
+	case "connect", "disconnect", "connect-hdr0":
 		return fmt.Sprintf("%s(%s,%s)", e.kind, names[e.p], names[e.x])
 	}
 	return fmt.Sprintf("%s(%s)", e.kind, names[e.p])
@@ -56,6 +56,13 @@ func alphabet() []event {
 	for _, p := range ids {
 		for _, x := range ids {
 			a = append(a, event{"connect", p, x})
+		}
+	}
+	// a connect whose relayed registration names x in its metadata but carries 0 as the
+	// sender's id in its header: not a registration of anybody (no effect on the graph)
+	for _, p := range ids[:2] {
+		for _, x := range ids {
+			a = append(a, event{"connect-hdr0", p, x})
 		}
 	}
 	for _, p := range ids {
@@ -138,7 +145,7 @@ func (w *world) enabled() []int {
 	var out []int
 	for i, e := range alphabet() {
 		switch e.kind {
-		case "connect", "disconnect", "exit", "killdate":
+		case "connect", "disconnect", "exit", "killdate", "connect-hdr0":
 			if _, ok := w.chain(e.p); !ok {
 				continue
 			}
@@ -172,6 +179,15 @@ func (w *world) apply(e event) (string, string) {
 		}
 		if x := w.ts.Agent(e.x); x != nil && x.Active {
 			delete(w.died, e.x)
+		}
+	case "connect-hdr0":
+		k := kidx(e.x)
+		inner := demonwire.Register(0, seam.Key(k), seam.IV(k), demonwire.DefaultMeta(e.x))
+		b := &demonwire.W{}
+		b.I32(agent.DEMON_PIVOT_SMB_CONNECT).I32(1).Bytes(inner)
+		r := w.send(e.p, demonwire.Sub{Cmd: agent.COMMAND_PIVOT, Body: b.B})
+		if r.Panic != nil {
+			return fmt.Sprint(r.Panic), r.Stack
 		}
 	case "disconnect":
 		b := &demonwire.W{}
@@ -267,6 +283,13 @@ func (w *world) invariants(last event) (string, string) {
 		return "I0-database-still-locked", fmt.Sprintf("after %s has returned the SQLite file is still locked by the teamserver (%v): a statement or result set was left open", last, err)
 	}
 	ags := w.ts.T.Agents.Agents
+	seenID := map[string]bool{}
+	for _, a := range ags {
+		if seenID[a.NameID] {
+			return "I7-two-sessions-one-id", fmt.Sprintf("two sessions have the id %s", a.NameID)
+		}
+		seenID[a.NameID] = true
+	}
 	// I1
 	count := map[*agent.Agent]int{}
 	for _, p := range ags {
